@@ -121,6 +121,13 @@ def variants(n, edges, max_out):
 
 def size_assignments(inds, mode):
     inds = list(inds)
+    # dimensions of size 1 (a tensor all of whose legs have size 1 is NOT a
+    # scalar): every single index, every pair, and all of them
+    for m in (1, 2):
+        for ones in itertools.combinations(inds, m):
+            yield {ix: (1 if ix in ones else 2 + (j % 2))
+                   for j, ix in enumerate(inds)}
+    yield {ix: 1 for ix in inds}
     if mode == "all":
         for combo in itertools.product((2, 3), repeat=len(inds)):
             yield dict(zip(inds, combo))
